@@ -9,8 +9,17 @@ observed on the real implementation (one atomic / lock operation reported by the
 shim) is accepted only if it is exactly the operation that task performs next — same kind, location,
 memory ordering at least as strong, operands, and the value the model's memory holds — and then the
 machine performs the corresponding `Hp.Step`. `Prom/Lemmas/HistRefine.lean` proves that every accepted
-item is a stutter or one `Hp.Step` of the abstraction, so every state the machine reaches while
-replaying a real trace satisfies the theorems of C02 / C03.
+item is a stutter, one `Hp.Step` or (see (b)) two `Hp.Step`s of the abstraction, so every state the
+machine reaches while replaying a real trace satisfies the theorems of C02 / C03.
+
+Two freedoms the real code has are accepted (both behaviour-preserving):
+(a) the cell updates of one observation / one flushed batch may come in ANY order (`pick`: the event's
+    location selects the entry of the task's list; the first such entry if a cell occurs twice; an event
+    that addresses no entry is checked against the head and rejected). The compare-exchange loop on the
+    sum keeps its state (`cur`, `failed`) across bucket updates of the same observation, so bucket
+    updates may also fall between the loop's load and its compare-exchange.
+(b) a collector may skip the `fetch_add(0)` of `addHot c` on a bucket out of which it swapped 0
+    (`skipTask`): the machine then takes the abstract `addHot` step (it adds 0) itself.
 
 Memory cells are exact integers (`Nat` counts, `Int` cells). Events carry 64-bit patterns: the
 machine compares them with the *encoding* of its own value (`encSc` for shard_and_count, `u64OfInt`
@@ -106,10 +115,45 @@ def casLoop (e : Ev) (c : Hp.St) (pc : Pc) (b : Bool) (cell : Nat) (a : Int) (on
         guard (sumRange x && e.res == f64OfInt x) "failed sum cas reports a wrong current value"
           (.ok (c, { pc with cur := some x, failed := true }, none))
 
+/-- does an event on location `loc` address the cell of the update entry `p` of an observation
+    running in shard `b`? (cells `< k` are buckets, the other cell is the sum) -/
+def hits (k : Nat) (b : Bool) (loc : Loc) (p : Nat × Int) : Bool :=
+  if p.1 < k then loc == .bkt b p.1 else loc == .sum b
+
+/-- split a list at its FIRST entry satisfying `f`: (entries before, that entry, entries after) -/
+def splitFirst (f : Nat × Int → Bool) : List (Nat × Int) → Option (List (Nat × Int) × (Nat × Int) × List (Nat × Int))
+  | [] => none
+  | p :: l =>
+    if f p then some ([], p, l)
+    else match splitFirst f l with
+      | some (l1, q, l2) => some (p :: l1, q, l2)
+      | none => none
+
+/-- the entry of the non-empty update list `p :: l` that an event on `loc` is about: the first entry
+    whose cell `loc` addresses; if there is none, the head (whose check then rejects the event).
+    Result: (entries before, the entry, entries after). -/
+def pick (k : Nat) (b : Bool) (loc : Loc) (p : Nat × Int) (l : List (Nat × Int)) :
+    List (Nat × Int) × (Nat × Int) × List (Nat × Int) :=
+  (splitFirst (hits k b loc) (p :: l)).getD ([], p, l)
+
+/-- one cell update `(cell, a)` of an observation `o` running in shard `b`; `rest` are the entries
+    that remain to be applied afterwards. A bucket is one `fetch_add` (which leaves a sum loop that
+    may be in progress as it is), the sum is the compare-exchange loop `casLoop`. -/
+def obsEntry (k : Nat) (c : Hp.St) (e : Ev) (pc : Pc) (o : Obs) (b : Bool) (cell : Nat) (a : Int)
+    (rest : List (Nat × Int)) : Except String Res :=
+  let x := (c.sh b).cell cell
+  let c' : Hp.St := { c with sh := modSh c.sh b (fun sd => { sd with cell := setCell sd.cell cell (sd.cell cell + a) }) }
+  if cell < k then
+    guard (e.k == "A" && parseLoc e.loc == .bkt b cell && ordGe e.ord "Relaxed" && e.a == u64OfInt a && e.res == u64OfInt x)
+      s!"{pc.op}: expected fetch_add Relaxed {a} on bucket {cell} of shard {b} -> {x}"
+      (.ok (c', { pc with task := some (.obsRun o b rest) }, none))
+  else casLoop e c pc b cell a (c', { pc with task := some (.obsRun o b rest), cur := none, failed := false }, none)
+
 def plainR (cuts : Cuts) (r : Except String Res) : Except String (Res × Cuts) :=
   match r with | .ok x => .ok (x, cuts) | .error m => .error m
 
-def evStep (k : Nat) (c : Hp.St) (cuts : Cuts) (e : Ev) (pc : Pc) : Except String (Res × Cuts) :=
+/-- the check of one event against the task the call currently is (after `skipPc`, see `evStep`) -/
+def evStep1 (k : Nat) (c : Hp.St) (cuts : Cuts) (e : Ev) (pc : Pc) : Except String (Res × Cuts) :=
   let plain := plainR cuts
   match pc.task with
   | none =>
@@ -122,15 +166,10 @@ def evStep (k : Nat) (c : Hp.St) (cuts : Cuts) (e : Ev) (pc : Pc) : Except Strin
       s!"{pc.op}: expected claim fetch_add Acquire {o.w} on shard_and_count -> {hexStr (encSc c.hot c.n)}"
       (.ok ({ c with n := c.n + o.w, claimed := c.claimed ++ [o], asg := modAsg c.asg c.hot (· ++ [o]) },
             { pc with task := some (.obsRun o c.hot o.upd) }, none))
-  | some (.obsRun o b ((cell, a) :: rest)) =>
-    let x := (c.sh b).cell cell
-    let c' : Hp.St := { c with sh := modSh c.sh b (fun sd => { sd with cell := setCell sd.cell cell (sd.cell cell + a) }) }
-    let pc' : Pc := { pc with task := some (.obsRun o b rest), cur := none, failed := false }
-    if cell < k then
-      plain <| guard (e.k == "A" && parseLoc e.loc == .bkt b cell && ordGe e.ord "Relaxed" && e.a == u64OfInt a && e.res == u64OfInt x)
-        s!"{pc.op}: expected fetch_add Relaxed {a} on bucket {cell} of shard {b} -> {x}"
-        (.ok (c', pc', none))
-    else plain <| casLoop e c pc b cell a (c', pc', none)
+  | some (.obsRun o b (p :: l)) =>
+    -- the updates of one observation may come in any order: the event's location selects the entry
+    let sp := pick k b (parseLoc e.loc) p l
+    plain <| obsEntry k c e pc o b sp.2.1.1 sp.2.1.2 (sp.1 ++ sp.2.2)
   | some (.obsRun o b []) =>
     plain <| guard (e.k == "A" && parseLoc e.loc == .cnt b && ordGe e.ord "Release" && e.a == o.w.toUInt64 && e.res == (c.sh b).count.toUInt64)
       s!"{pc.op}: expected publish fetch_add Release {o.w} on the count of shard {b} -> {(c.sh b).count}"
@@ -196,6 +235,24 @@ def evStep (k : Nat) (c : Hp.St) (cuts : Cuts) (e : Ev) (pc : Pc) : Except Strin
             { pc with task := none }, some (showSnap k ov taken)),
            cuts ++ [⟨pc.c0, S, c.claimed, showSnap k ov taken⟩])
   | some (.colMove _ _ [] _ _) => .error "event after the collect's last step"
+
+/-- a collector may SKIP the no-op `fetch_add(0)` of its step `addHot cell` on a bucket (`cell < k`)
+    when the value it swapped out of the cold bucket is 0 (`taken cell = 0`): if that step is the next
+    one and the event at hand is not on that hot bucket, the step is taken silently (it adds 0, the
+    shared state does not change) and the event is checked against the rest of the program.
+    An event ON that hot bucket is checked against the `fetch_add(0)` as before. -/
+def skipTask (k : Nat) (loc : Loc) : Option Task → Option Task
+  | some (.colMove cold ov (.addHot cell :: todo) taken S) =>
+    if decide (cell < k) && decide (taken cell = 0) && loc != .bkt (!cold) cell
+    then some (.colMove cold ov todo taken S)
+    else some (.colMove cold ov (.addHot cell :: todo) taken S)
+  | t => t
+
+def skipPc (k : Nat) (e : Ev) (pc : Pc) : Pc := { pc with task := skipTask k (parseLoc e.loc) pc.task }
+
+/-- one event of an open call: at most one silent `addHot` of 0 (`skipPc`), then the check `evStep1` -/
+def evStep (k : Nat) (c : Hp.St) (cuts : Cuts) (e : Ev) (pc : Pc) : Except String (Res × Cuts) :=
+  evStep1 k c cuts e (skipPc k e pc)
 
 /-- the observation an `obs:v` / `flush:v1+v2+…` call makes: weight, one entry per non-empty bucket
     (ascending), then the sum entry on cell `k` -/
